@@ -81,11 +81,10 @@ def t_mean(name, D, N, order, steps, seed):
     return drift < 1e-12 * (1 + float(np.max(np.abs(np.asarray(u))))) * steps * 10, f"{name} D={D} N={N} order={order}: mean drift {drift:.2e} after {steps} steps"
 
 
-def t_work(kind, D, N, seed):
+def t_work(kind, D, N, seed, L=2.7):
     """<u, N(u)> = 0 on band-limited states (energy), and <psi, N(w)> = <w, N(w)> = 0 for the 2D vorticity form"""
     ex, jnp = _ex()
     rng = np.random.default_rng(seed)
-    L = 2.7
     dop = ex.spectral.build_derivative_operator(D, L, N)
     nf = ex.nonlin_fun
     if kind in ("conv_cons", "conv_noncons"):
@@ -109,11 +108,11 @@ def t_work(kind, D, N, seed):
     scale = np.sum(u * u) * np.sqrt(np.sum(out * out) / max(np.sum(u * u), 1e-300)) + 1e-300
     if kind in ("conv_noncons",) and D > 1:
         return True, "multi-channel non-conservative convection is not energy neutral for compressible fields (not claimed)"
-    if kind in ("conv_cons", "conv_sc_cons", "conv_sc_noncons") and D > 1:
-        return True, "energy neutrality of Burgers-type convection is claimed in 1D"
+    if kind == "conv_cons" and D > 1:
+        return True, "energy neutrality of the multi-channel Burgers-type convection is claimed in 1D"
     w1 = abs(np.sum(u * out)) / scale
     ok = w1 < 1e-10
-    det = f"{kind} D={D} N={N}: relative work {w1:.2e}"
+    det = f"{kind} D={D} N={N} L={L}: relative work {w1:.2e}"
     if kind == "vorticity":
         lap = np.sum(np.asarray(dop) ** 2, axis=0)
         psi_h = np.where(lap == 0, 0, uh[0] / np.where(lap == 0, 1, lap))
@@ -140,7 +139,22 @@ def t_fixed_point(name, D, N, order, ustar):
     return e < 1e-10, f"{name} D={D} N={N} order={order}: constant state {ustar} moved by {e:.2e} in 3 steps"
 
 
-TESTS = dict(mean=t_mean, work=t_work, fixed_point=t_fixed_point)
+def t_fixed_point_poly(D, N, order, ustar):
+    """generic polynomial reaction with a non-zero constant term: D a0 u + c0 + c1 u + c2 u^2 = 0 at the constant state ustar"""
+    ex, jnp = _ex()
+    import exponax.stepper.generic as G
+    a0, c1, c2 = -0.2 / D, 0.3, -1.0
+    c0 = -(D * a0 * ustar + c1 * ustar + c2 * ustar**2)
+    s = G.GeneralPolynomialStepper(D, 3.0, N, 0.1, linear_coefficients=(a0, 0.0, 0.02), polynomial_coefficients=(c0, c1, c2), order=order)
+    u = jnp.ones((1,) + (N,) * D) * ustar
+    out = u
+    for _ in range(3):
+        out = s(out)
+    e = float(np.max(np.abs(np.asarray(out) - np.asarray(u))))
+    return e < 1e-10, f"GeneralPolynomialStepper D={D} N={N} order={order} c0={c0:.3f}: constant equilibrium {ustar} moved by {e:.2e} in 3 steps"
+
+
+TESTS = dict(mean=t_mean, work=t_work, fixed_point=t_fixed_point, fixed_point_poly=t_fixed_point_poly)
 
 
 def witness(ctx):
@@ -156,8 +170,19 @@ def witness(ctx):
     for N in ((9, 12, 18) if not deep else (9, 12, 18, 24, 15, 36)):
         for kind in ("conv_cons", "conv_sc_cons", "conv_sc_noncons", "conv_noncons"):
             ctx.check("work", dict(kind=kind, D=1, N=N, seed=ctx.seed))
+    for D in (2, 3):
+        for N in ((6, 9) if D == 2 else (6,)) + ((12, 7) if deep else ()):
+            for kind in ("conv_sc_cons", "conv_sc_noncons"):
+                ctx.check("work", dict(kind=kind, D=D, N=N, seed=ctx.seed))
     for N in ((6, 12) if not deep else (6, 8, 9, 12, 18)):
         ctx.check("work", dict(kind="vorticity", D=2, N=N, seed=ctx.seed))
+    for L in (1e5, 1e-3) + ((6.3e4, 2e6, 1.0) if deep else ()):
+        for N in ((12,) if not deep else (12, 24, 27)):
+            ctx.check("work", dict(kind="vorticity", D=2, N=N, seed=ctx.seed, L=L))
+    for D in (1, 2, 3):
+        for order in ((1 + (ctx.seed + D) % 4,) if not deep else (1, 2, 3, 4)):
+            for N in ((8,) if D < 3 else (6,)) + ((7,) if deep else ()):
+                ctx.check("fixed_point_poly", dict(D=D, N=N, order=order, ustar=0.5 if (D + ctx.seed) % 2 else -0.8))
     for N in ((6,) if not deep else (6, 7, 9)):
         ctx.check("work", dict(kind="projected", D=3, N=N, seed=ctx.seed))
     for D in (1, 2):
